@@ -320,6 +320,29 @@ pub fn monitor(o: &Obs) -> Result<(), String> {
             }
         }
     }
+    // C09: a router that sleeps for good (no waker will fire), blocked on nobody, must not have left a stream it was
+    // polling in mid-flow: a requestor stream, or the bound replier's stream, that was last seen yielding (an item
+    // or an error, not Pending and not its end) holds no waker - what it has next is never looked at
+    if o.sleeping_for_good && !o.done && !o.closed && !o.last_any_child_pending {
+        let mut last: BTreeMap<usize, char> = BTreeMap::new();
+        let mut gone: BTreeMap<usize, bool> = BTreeMap::new();
+        for e in &o.events {
+            match e {
+                Ev::StreamItem(i, _) => { last.insert(*i, 'i'); }
+                Ev::StreamErr(i) => { last.insert(*i, 'x'); }
+                Ev::StreamPending(i) => { last.insert(*i, 'p'); }
+                Ev::StreamEnd(i) => { last.insert(*i, 'e'); }
+                Ev::Dropped(_, i) => { gone.insert(*i, true); }
+                _ => {}
+            }
+        }
+        for (i, k) in &last {
+            if (*k == 'i' || *k == 'x') && !gone.get(i).copied().unwrap_or(false) {
+                let who = if *i >= V { format!("replier v{}", *i - V) } else { format!("requestor k{i}") };
+                return Err(format!("C09: the router sleeps (no waker will fire) although the stream of {who} was still yielding when it was last polled: what it has next is never looked at"));
+            }
+        }
+    }
     // C09 / C16
     if o.sleeping_for_good && o.closed && !o.done && !o.last_any_child_pending { return Err("C16: the registration channel is closed and nothing is pending, yet the router sleeps instead of finishing".into()); }
     Ok(())
